@@ -35,6 +35,7 @@ type Query {
 %s
   multi(a: Int, b: String, c: Kind, d: [Int]): String
 }
+type Mutation { mmulti(a: Int!, b: String): String }
 """ % "\n".join(fields)
 
 
@@ -50,7 +51,7 @@ def get_schema():
 
 
 NAME_CATALOGUE = ["class", "from", "import", "match", "type", "fooBar", "FooBar", "foo_bar", "HTTPCode", "a1", "_under", "under_", "query", "variables",
-                  "response", "data", "_query", "_variables", "gql", "self", "kwargs", "copy", "json", "dict", "id", "x_", "List", "Optional", "Any", "Dict", "UNSET", "Kind", "In"]
+                  "response", "data", "_query", "_variables", "gql", "self", "kwargs", "Query", "QUERY", "Data", "Variables", "Response", "Gql", "copy", "json", "dict", "id", "x_", "List", "Optional", "Any", "Dict", "UNSET", "Kind", "In"]
 
 
 def build_cases(tier):
@@ -77,6 +78,11 @@ def build_cases(tier):
     for a, b in (("query", "_query"), ("variables", "_variables"), ("data", "response"), ("fooBar", "foo_bar"), ("query", "variables")):
         q = f"query N(${a}: Int, ${b}: String) {{ multi(a: ${a}, b: ${b}) }}\n"
         cases.append(dict(kind="name", query=q, op="N", vars=[(a, "Int", False), (b, "String", False)], options={}, tags={f"varname:{a}", f"varname:{b}", "name_pair"}))
+    for q2, vs in (("query M2($tag: String, $owner: Int!, $limit: [Int], $kind: Kind!) { multi(b: $tag, a: $owner, d: $limit, c: $kind) }\n",
+                    [("tag", "String", False), ("owner", "Int!", False), ("limit", "[Int]", False), ("kind", "Kind!", False)]),
+                   ("mutation M3($b: String, $a: Int!) { mmulti(a: $a, b: $b) }\n", [("b", "String", False), ("a", "Int!", False)])):
+        for cfg in ({}, {"async_client": False}, {"convert_to_snake_case": False}):
+            cases.append(dict(kind="multi", query=q2, op=q2.split("(")[0].split()[1], vars=vs, options=cfg, tags={"multi", "optional_before_required"}))
     q = "query M($a: Int!, $b: String, $c: Kind = A, $d: [Int] = [1, null]) { multi(a: $a, b: $b, c: $c, d: $d) }\n"
     for cfg in ({}, {"async_client": False}):
         cases.append(dict(kind="multi", query=q, op="M", vars=[("a", "Int!", False), ("b", "String", False), ("c", "Kind", True), ("d", "[Int]", True)], options=cfg, tags={"multi"}))
@@ -132,6 +138,9 @@ def evaluate(case):
                 p[vn] = inputs.OMIT
                 plans.append(p)  # optional: key must be absent; required: must raise TypeError
             # (a non-null variable with a default may or may not be a required Python parameter: nothing demanded)
+        if len(vars_) > 1:
+            plans.append({vn: (menus[vn][0][0]) for vn, _, _ in vars_})
+            plans.append({vn: (menus[vn][0][-1] if not menus[vn][2] else menus[vn][0][0]) for vn, _, _ in vars_})
         seen = set()
         for plan in plans:
             key = json.dumps(sorted(plan.items()), default=str)
